@@ -80,10 +80,21 @@ def build_case(prop, b):
         meta = {"line": line, "quoted": lay["phys"][line - 1][1]}
         jobs = [dict(name="keep", src=src, std=std, ic=False), dict(name="ignore", src=src, std=std, ic=True)]
     elif prop == "C08":
-        est = render.stmts_of(b["edited"])
-        esrc = render.free_text(est)
-        jobs = [dict(name="E", src=esrc, std=std, ic=True)]
-        meta = {"valid": b["valid"]}
+        others = [e for e in ed if e["t"] in ("cmt", "cpp")]
+        lay = perturb.layout(b["edited"], others)
+        lines = [l for _, l in lay["phys"]]
+        skip = False
+        for e in ed:
+            if e["t"] == "par":
+                k = lay["last_line"][e["pos"]] - 1
+                new = par_edit(lines[k], e["a"], e["b"])
+                if new is None:
+                    skip = True
+                else:
+                    lines[k] = new
+        esrc = "\n".join(lines) + "\n"
+        jobs = [dict(name="E", src=esrc, std=std, ic=not others)]
+        meta = {"valid": b["valid"] or skip}
     elif prop == "C15":
         hidden = {e["pos"] for e in ed if e["t"] == "sent"}
         minus = [s for i, s in enumerate(stmts, 1) if i not in hidden]
@@ -95,6 +106,25 @@ def build_case(prop, b):
                 dict(name="off", src=src, std=std, ic=True),
                 dict(name="onkeep", src=src, std=std, ic=False, omp=True, want=["leaves"]),
                 dict(name="Pkeep", src=plain, std=std, ic=False, want=["leaves"])]
+        # the same in fixed form: sentinel !$ / c$ / *$ in columns 1-2 (continuation: sentinel, three blanks, mark in column 6)
+        from .sourceform import fixed_render
+        sty = ["!$", "c$", "*$", "C$"][b["id"] % 4]
+        fplain = fixed_render(stmts, 72, "&", "C", 0).split("\n")
+        fminus = fixed_render(minus, 72, "&", "C", 0)
+        flines = []
+        k = 0
+        per_stmt = fixed_lines_per_stmt(stmts)
+        for i, ls in enumerate(per_stmt, 1):
+            for ln in ls:
+                flines.append((sty + ln[2:]) if (i in hidden and not ln.startswith(("C", "c", "*", "!"))) else ln)
+        fsrc = "\n".join(flines) + "\n"
+        fp_src = "\n".join(l for ls in per_stmt for l in ls) + "\n"
+        for strict in (False, True):
+            tag = "x" if strict else "f"
+            jobs += [dict(name=tag + "P", src=fp_src, std=std, ic=True, fmt=(False, strict)),
+                     dict(name=tag + "Pminus", src=fminus, std=std, ic=True, fmt=(False, strict)),
+                     dict(name=tag + "on", src=fsrc, std=std, ic=True, omp=True, fmt=(False, strict)),
+                     dict(name=tag + "off", src=fsrc, std=std, ic=True, fmt=(False, strict))]
     elif prop == "C13":
         lay = perturb.layout(out, [])
         per = {}
@@ -102,6 +132,7 @@ def build_case(prop, b):
             per.setdefault(i, []).append(l)
         incs = [(e["pos"], e["a"]) for e in ed if e["t"] == "inc"]
         main, files = perturb.split_includes(per, stmts, incs)
+        nested_names = files.pop("__nested__")
         msrc = "\n".join(main) + "\n"
         decoy = {fn: "  this is not fortran @@\n" for fn in files}
         jobs = [dict(name="P", src=base_src, std=std, ic=True, want=["leaves"]),
@@ -109,10 +140,52 @@ def build_case(prop, b):
                 dict(name="file", src=msrc, std=std, ic=True, files={"d1": files}, reader="file"),
                 dict(name="order", src=msrc, std=std, ic=True, files={"d1": files, "d2": decoy}, dirs=["d1", "d2"], reader="string"),
                 dict(name="absent", src=msrc, std=std, ic=True, files={"d1": {}}, reader="string", want=["leaves", "textfull"])]
+        if nested_names:
+            # the first matching directory in include-path order wins, also for an INCLUDE inside an included file:
+            # the nested files live in d1, the files that include them in d2 next to decoys of the nested ones
+            d1 = {fn: files[fn] for fn in nested_names}
+            d2 = {fn: (files[fn] if fn not in nested_names else decoy[fn]) for fn in files}
+            jobs.insert(4, dict(name="split", src=msrc, std=std, ic=True, files={"d1": d1, "d2": d2}, dirs=["d1", "d2"], reader="file"))
         # the absent case is only meaningful when the cut is at one nesting level and leaves valid source
         meta = {"incs": incs, "files": files, "main": msrc,
                 "nested": any(o != ab and o[0] <= ab[0] and ab[1] <= o[1] for o in incs for ab in incs)}
     return {"id": b["id"], "jobs": jobs, "meta": meta, "fam": b["fam"], "out": out, "ed": ed, "beh_extra": {k: b[k] for k in ("leaves", "valid") if k in b}}
+
+
+def fixed_lines_per_stmt(stmts):
+    """Fixed-form physical lines per statement (wrap 72, no comment lines)."""
+    from .sourceform import fixed_render
+    out = []
+    for s_ in stmts:
+        txt = fixed_render([dict(s_, d=min(s_["d"], 2))], 72, "&", "C", 1)
+        out.append([l for l in txt.split("\n") if l and not l.startswith(("C ", "c", "*"))])
+    return out
+
+
+def par_edit(line, a, b):
+    """Delete (b = 1) the a-th parenthesis, or insert an opening (2) / closing (3) one at the a-th quarter, outside literals and comments."""
+    toks = perturb.layout_tokens(line.strip())
+    ind = line[:len(line) - len(line.lstrip())]
+    # stop at a trailing comment
+    for i, (t, sp) in enumerate(toks):
+        if t == "!":
+            toks = toks[:i]
+            break
+    if b == 1:
+        idx = [i for i, (t, sp) in enumerate(toks) if t in ("(", ")", "(/", "/)")]
+        if not idx:
+            return None
+        i = idx[(a - 1) % len(idx)]
+        t, sp = toks[i]
+        toks[i] = (t.replace("(", "").replace(")", ""), sp)
+        if toks[i][0] == "":
+            del toks[i]
+    else:
+        if not toks:
+            return None
+        i = min(len(toks), max(1, (len(toks) * a) // 4))
+        toks.insert(i, ("(" if b == 2 else ")", ""))
+    return ind + perturb.join_tokens(toks)
 
 
 def parse_ev(ev, D, ctr, src_digest, cfg, r):
@@ -126,7 +199,7 @@ def parse_ev(ev, D, ctr, src_digest, cfg, r):
 
 def cfgid(job):
     return session.cfg_id(job["std"], job.get("ic", True), job.get("pd", False), job.get("omp", False),
-                          job.get("reader", "") + "/".join(job.get("dirs", [])) + ("+files:" + job["name"] if job.get("files") is not None else ""))
+                          str(job.get("fmt", "")) + job.get("reader", "") + "/".join(job.get("dirs", [])) + ("+files:" + job["name"] if job.get("files") is not None else ""))
 
 
 def events_for(prop, case, res, D, ctr):
@@ -227,13 +300,23 @@ def events_for(prop, case, res, D, ctr):
         claim("sametree", "Pminus", ci=False, **ref("off"))
         for name in ("onkeep", "Pkeep"):
             lv = R[name].get("leaves")
+            if lv is not None:
+                # the comment line the renderer puts between continued conditional lines is not part of P
+                lv = [x for x in lv if tuple(x) != ("c", "! comment between conditional lines")]
+                R[name]["leaves"] = lv
             obs_ev(name, "leaves", repr(lv) if lv is not None else None)
         if R["Pkeep"].get("leaves") is not None:
             claim("obseq", "onkeep", key="leaves", val=D(repr(R["Pkeep"]["leaves"])))
+        for tag in ("f", "x"):
+            # the property is conditional on the plain fixed-form text being accepted in that mode (strict F77 mode refuses much)
+            if R[tag + "P"]["o"]["res"] == "ok" and R[tag + "Pminus"]["o"]["res"] == "ok":
+                claim("sametree", tag + "P", ci=False, **ref(tag + "on"))
+                claim("sametree", tag + "Pminus", ci=False, **ref(tag + "off"))
     elif prop == "C13":
         claim("accept", "P")
-        for name in ("str", "file", "order"):
-            claim("sametree", "P", ci=False, **ref(name))
+        for name in ("str", "file", "order", "split"):
+            if name in J:
+                claim("sametree", "P", ci=False, **ref(name))
         if not case["meta"]["nested"]:
             # unresolved includes are kept as Include_Stmt nodes exactly where the lines were
             pst = [x for x in (R["P"].get("leaves") or []) if x[0] == "s"]
